@@ -213,7 +213,7 @@ func c06Stamping(p *core.Prog, r *core.Report) {
 		var k int64
 		core.EachInstr(ps, func(i ssa.Instruction) {
 			if ret, isRet := i.(*ssa.Return); isRet && len(ret.Results) == 1 {
-				base, kk, aff := affine(ret.Results[0])
+				base, kk, aff := affine(core.ReturnValues(ret)[0])
 				if aff && (core.LoadedField(base) == sizeF || isFieldOf(base, sizeF)) {
 					ok, k = true, kk
 				}
@@ -225,10 +225,10 @@ func c06Stamping(p *core.Prog, r *core.Report) {
 		ok := false
 		core.EachInstr(fs, func(i ssa.Instruction) {
 			if ret, isRet := i.(*ssa.Return); isRet && len(ret.Results) == 1 {
-				if fld := core.LoadedField(ret.Results[0]); fld == sizeF {
+				if fld := core.LoadedField(core.ReturnValues(ret)[0]); fld == sizeF {
 					ok = true
 				}
-				if f, isF := ret.Results[0].(*ssa.Field); isF && core.FieldOfField(f) == sizeF {
+				if f, isF := core.ReturnValues(ret)[0].(*ssa.Field); isF && core.FieldOfField(f) == sizeF {
 					ok = true
 				}
 			}
@@ -680,7 +680,7 @@ func c06Encode(p *core.Prog, r *core.Report) {
 		if o := core.CalleeObj(cs.Call); o != nil && core.ShortKey(o) == "Span.write" {
 			stickyOK := false
 			core.EachInstr(cs.Fn, func(i ssa.Instruction) {
-				if ret, ok := i.(*ssa.Return); ok && len(ret.Results) == 1 && callResult(ret.Results[0], "typed.WriteBuffer.Err") != nil {
+				if ret, ok := i.(*ssa.Return); ok && len(ret.Results) == 1 && callResult(core.ReturnValues(ret)[0], "typed.WriteBuffer.Err") != nil {
 					stickyOK = true
 				}
 			})
